@@ -42,10 +42,33 @@ def gen_leaf(rng):
     return ('extra', rng.random() < .3, rng.choice(markers.EXTRAS + ['a b', 'é']))
 
 
-def gen_ast(rng, depth):
+def flip_leaf(a):
+    """the complementary comparison on the same variable, where one exists"""
+    k = a[0]
+    if k == 'extra':
+        return ('extra', not a[1], a[2])
+    if k in ('in', 'contains', 'verin'):
+        return a[:3] + (not a[3],)
+    if k == 'str' and a[2] in ('==', '!='):
+        return ('str', a[1], '!=' if a[2] == '==' else '==', a[3])
+    return a
+
+
+def gen_ast(rng, depth, pool=None):
+    """a random syntax tree; a quarter of the non-trivial ones draw their leaves from a small pool of comparisons and their
+    complements, so that the same variable meets itself in both polarities below and / or (if-then-else shapes)"""
+    if pool is None and depth >= 2 and rng.random() < .25:
+        pool = []
+        while len(pool) < rng.randint(2, 3):
+            l = gen_leaf(rng)
+            if l[0] in ('extra', 'in', 'contains') or rng.random() < .3:
+                pool.append(l)
     if depth == 0 or rng.random() < .3:
+        if pool:
+            l = rng.choice(pool)
+            return flip_leaf(l) if rng.random() < .4 else l
         return gen_leaf(rng)
-    return (rng.choice(['and', 'or']), gen_ast(rng, depth - 1), gen_ast(rng, depth - 1))
+    return (rng.choice(['and', 'or']), gen_ast(rng, depth - 1, pool), gen_ast(rng, depth - 1, pool))
 
 
 def quote(rng, s):
@@ -261,14 +284,17 @@ def run(ctx):
             if got[0] != 'ok':
                 ctx.failure('evaluate failed: %s' % dump(got)[:200], {'text': t0, 'env': env})
                 continue
-            vals = got[1:6]
+            vals = got[1:6] + [got[8]]
+            ec = sess.ask(['envcheck', markers.env_sexp(env)])
+            if ec[0] == 'ok' and ec[1]:
+                ctx.failure('the environment does not hold the values it was built from: %s' % ', '.join(unS(x) for x in ec[1])[:300], {'env': env})
             for t, r in regs[1:]:
                 g2 = c02.eval_all(sess, r, env, ex)
                 if g2[0] == 'ok' and g2[1] != got[1]:
                     ctx.failure('two layouts of the same marker evaluate differently (%s / %s)' % (got[1], g2[1]), {'a': t0, 'b': t, 'env': env, 'extras': ex})
             if len(set(vals)) != 1:
                 ctx.failure('the evaluation entry points disagree: %s' % vals, {'text': t0, 'env': env, 'extras': ex})
-            if got[6] != got[7]:
+            if got[6] != got[7] or got[7] != got[9]:
                 ctx.failure('evaluate_reporter and evaluate_collect_warnings report different warnings', {'text': t0, 'env': env})
             if not scope:
                 ctx.count('carved-out')
@@ -297,6 +323,13 @@ def run(ctx):
         if len(ctx.samples) < 8 and ctx.rng.random() < .03:
             ctx.sample({'layouts': texts})
     drv.close()
+    def parse_eval(text, env):
+        reg, _ = sess.parse(text)
+        if reg is None:
+            return None
+        g = c02.eval_all(sess, reg, env, [])
+        return g[1] if g[0] == 'ok' else None
+    markers.key_table_battery(ctx, parse_eval)
     c02.monitor(ctx, sess, list(sess.models.keys()))
     sess.close()
     if not ctx.samples:
